@@ -96,7 +96,9 @@ fn alpn_idx(v: &[String]) -> i128 {
 }
 const HOSTS: [&str; 5] = ["example.com", "*.example.com", "a.example.com", "/re[0-9]+/.example.com", "EXAMPLE.com"];
 const PATHS: [&str; 5] = ["", "/", "/api", "/api/v1", "/a.*"];
-const METHODS: [&str; 3] = ["GET", "POST", "get"];
+// in the order of the key strings ("...;GET" < "...;POST" < "...;Post" < "...;get"); the lower / mixed-case spellings
+// are there so that a stored method that is not the request's own spelling (case folding) shows in dumps and replays
+const METHODS: [&str; 4] = ["GET", "POST", "Post", "get"];
 fn cid(i: i128) -> String {
     format!("c{}", i % 10)
 }
@@ -1280,6 +1282,101 @@ fn load_state_like_master(file: &mut std::fs::File) -> (ConfigState, usize, Opti
     (state, errs, status.err())
 }
 
+struct LoadReal {
+    loaded: bool,
+    saved: bool,
+    n_in: usize,
+    n_out: usize,
+    same: bool,
+    file_len: usize,
+    message: String,
+}
+
+/// a real main process (no worker) on a unix socket, ordered like `sozu state load` / `sozu state save` do
+fn load_real(max: u64, lens: &[usize]) -> Result<LoadReal, String> {
+    use sozu_command_lib::channel::Channel;
+    use sozu_command_lib::proto::command::{Response, ResponseStatus};
+    use std::sync::atomic::{AtomicUsize, Ordering};
+    static K: AtomicUsize = AtomicUsize::new(0);
+    let dir = std::env::temp_dir().join(format!("sv-c05-hub-{}-{}", std::process::id(), K.fetch_add(1, Ordering::SeqCst)));
+    let _ = std::fs::remove_dir_all(&dir);
+    std::fs::create_dir_all(&dir).map_err(|e| e.to_string())?;
+    let res = (|| -> Result<LoadReal, String> {
+        let mut state = ConfigState::new();
+        for (i, len) in lens.iter().enumerate() {
+            let mut c = cluster(0, 0, 0);
+            c.cluster_id = format!("big{i:02}");
+            c.answer_503 = Some("x".repeat(*len));
+            state.dispatch(&RequestType::AddCluster(c).into()).map_err(|e| format!("add cluster: {e}"))?;
+        }
+        let saved = dir.join("saved.json");
+        let again = dir.join("again.json");
+        let mut f = std::fs::File::create(&saved).map_err(|e| e.to_string())?;
+        state.write_requests_to_file(&mut f).map_err(|e| e.to_string())?;
+        drop(f);
+        let bytes = std::fs::read(&saved).map_err(|e| e.to_string())?;
+        if bytes.split(|b| *b == 0).any(|r| r.len() as u64 >= max) {
+            return Err("a record is not below max_command_buffer_size".into());
+        }
+        let sock = dir.join("sock");
+        let listener = std::os::unix::net::UnixListener::bind(&sock).map_err(|e| e.to_string())?;
+        listener.set_nonblocking(true).map_err(|e| e.to_string())?;
+        let (sp, cp) = (sock.to_string_lossy().to_string(), dir.join("config.toml").to_string_lossy().to_string());
+        std::thread::Builder::new()
+            .name("hub".into())
+            .spawn(move || {
+                let _ = std::panic::catch_unwind(std::panic::AssertUnwindSafe(|| {
+                    sozu_command_lib::logging::LOGGER.with(|l| l.borrow_mut().set_directives(vec![]));
+                    let mut config = sozu_command_lib::config::Config::default();
+                    config.config_path = cp;
+                    config.command_socket = sp;
+                    config.command_buffer_size = 16384;
+                    config.max_command_buffer_size = max;
+                    config.worker_automatic_restart = false;
+                    config.worker_count = 0;
+                    let listener = mio::net::UnixListener::from_std(listener);
+                    let mut hub = sozu::command::server::CommandHub::new(listener, config, "sozu".to_owned()).expect("hub");
+                    hub.run();
+                }));
+            })
+            .map_err(|e| e.to_string())?;
+        let mut ch: Channel<Request, Response> =
+            Channel::from_path(&sock.to_string_lossy(), 16384, max).map_err(|e| format!("connect: {e}"))?;
+        ch.blocking().map_err(|e| e.to_string())?;
+        let mut order = |r: RequestType| -> Result<Response, String> {
+            ch.write_message(&r.into()).map_err(|e| format!("write: {e}"))?;
+            loop {
+                let resp = ch.read_message_blocking_timeout(Some(std::time::Duration::from_secs(30))).map_err(|e| format!("read: {e}"))?;
+                if resp.status != ResponseStatus::Processing as i32 {
+                    return Ok(resp);
+                }
+            }
+        };
+        let l = order(RequestType::LoadState(saved.to_string_lossy().to_string()))?;
+        let sv = order(RequestType::SaveState(again.to_string_lossy().to_string()))?;
+        let _ = order(RequestType::HardStop(sozu_command_lib::proto::command::HardStop {}));
+        let mut back = ConfigState::new();
+        if let Ok(b) = std::fs::read(&again) {
+            if let Ok((_, reqs)) = parse_several_requests::<WorkerRequest>(&b) {
+                for r in reqs {
+                    let _ = back.dispatch(&r.content);
+                }
+            }
+        }
+        Ok(LoadReal {
+            loaded: l.status == ResponseStatus::Ok as i32,
+            saved: sv.status == ResponseStatus::Ok as i32,
+            n_in: state.clusters.len(),
+            n_out: back.clusters.len(),
+            same: back.clusters == state.clusters,
+            file_len: bytes.len(),
+            message: l.message.chars().take(160).collect(),
+        })
+    })();
+    let _ = std::fs::remove_dir_all(&dir);
+    res
+}
+
 // ---------------------------------------------------------------------------
 // the interpreter
 
@@ -1438,6 +1535,30 @@ pub fn run(cx: &Ctx, case: &Case, out: &mut Out, mode: Mode) {
                     }
                     if client_ok && state_ok && worker_res.is_err() {
                         out.viol("limit-channel-boundary", &format!("a request of {} bytes fits the client channel (max_command_buffer_size {max}) and is accepted by the state, but the same request wrapped with its worker id ({} bytes) cannot be written to the worker channel: {:?}", req.encoded_len() + 8, wr.encoded_len() + 8, worker_res.err()));
+                    }
+                }
+            }
+            "load_real" => {
+                // the REAL load path: a state file written by write_requests_to_file, read by the real main process
+                // (CommandHub, bin/src/command/requests.rs load_state) on a LoadState order, saved again by SaveState
+                let max = a[0] as u64;
+                let lens: Vec<usize> = a[1..].iter().map(|x| *x as usize).collect();
+                match load_real(max, &lens) {
+                    Ok(r) => {
+                        out.obs(&[tn(r.loaded as i128), tn(r.saved as i128), tn(r.n_in as i128), tn(r.n_out as i128), tn(r.same as i128)]);
+                        if mode == Mode::C05 && !(r.loaded && r.saved && r.same) {
+                            out.viol(
+                                "replay-real-load-state",
+                                &format!(
+                                    "a state file of {} bytes written by write_requests_to_file (clusters with answer_503 of {:?} bytes, every record below max_command_buffer_size {max}) ordered back with LoadState on the real main process: LoadState ok={} ({}), SaveState ok={}, {} of {} clusters survive, same configuration={}",
+                                    r.file_len, lens, r.loaded, r.message, r.saved, r.n_out, r.n_in, r.same
+                                ),
+                            );
+                        }
+                    }
+                    Err(e) => {
+                        out.note(&format!("invalid-case: load_real: {e}"));
+                        out.obs(&[]);
                     }
                 }
             }
